@@ -148,11 +148,12 @@ impl<'a, T: 'a + IO> Interpreter<'a, T> {
             parser::Stmt::Break(_, _) => {
                 self.current += 1;
 
+                let mut total_envs_created_inside_loop = 0;
                 // len <= 0 means no new environment was made inside loop
                 if self.loops.len() > 0 {
                     // destroying all envs that was created inside loop
                     let last_loop_env_index = self.loops.len() - 1;
-                    let total_envs_created_inside_loop = self.scopes.len() - self.loops[last_loop_env_index].total_envs_at_loop_creation;
+                    total_envs_created_inside_loop = self.scopes.len() - self.loops[last_loop_env_index].total_envs_at_loop_creation;
                     for _ in 0..total_envs_created_inside_loop {
                         self.scopes.pop();
                     }
@@ -161,19 +162,20 @@ impl<'a, T: 'a + IO> Interpreter<'a, T> {
                 // destroying loop env
                 self.loops.pop();
 
-                let mut stack: Vec<char> = Vec::new();
+                // every env created inside loop belongs to a block of loop body which is still
+                // open here. Continue which closes this loop is the first one outside of all
+                // blocks, nested loops and continue statements in later blocks are skipped
+                let mut open_blocks = total_envs_created_inside_loop;
                 loop {
-                    if let parser::Stmt::Loop(_, _) = self.statements[self.current] {
-                        stack.push('{');
-                    }
-
-                    if let parser::Stmt::Continue(_, _) = self.statements[self.current] {
-                        stack.pop();
-                        if stack.is_empty() {
+                    match self.statements[self.current] {
+                        parser::Stmt::BlockStart(_, _) => open_blocks += 1,
+                        parser::Stmt::BlockEnd(_, _) => open_blocks = open_blocks.saturating_sub(1),
+                        parser::Stmt::Continue(_, _) if open_blocks == 0 => {
                             // consuming Stmt::Continue
                             self.current += 1;
                             break;
-                        }
+                        },
+                        _ => {},
                     }
 
                     // skipping statements in block of loop
